@@ -173,6 +173,8 @@ def rs_cfg(cfg) -> Dict[str, Any]:
     }
     if cfg.get("kb_press"):
         c["kb_press"] = cfg["kb_press"]
+    if cfg.get("host_port"):
+        c["host_port"] = cfg["host_port"]
     if cfg.get("kol") is not None:
         c["kb_write"] = [[0xF0, cfg["kol"]]]
     return c
